@@ -1,6 +1,11 @@
 //! One module per property.
 use crate::engine::PropDef;
 
+pub mod c13;
+pub mod c20;
+pub mod c17;
+pub mod c08;
+pub mod c06;
 pub mod c10;
 pub mod c12;
 pub mod c19;
@@ -22,7 +27,7 @@ pub mod c09;
 pub mod factoring;
 
 pub fn all() -> Vec<PropDef> {
-    vec![c10::DEF, c12::DEF, c19::DEF, c14::DEF, c15::DEF, c16::DEF, c11::DEF, c18::DEF, c01::DEF, c02::DEF, c03::DEF, c04::DEF, c05::DEF, c07::DEF, c09::DEF]
+    vec![c13::DEF, c20::DEF, c17::DEF, c08::DEF, c06::DEF, c10::DEF, c12::DEF, c19::DEF, c14::DEF, c15::DEF, c16::DEF, c11::DEF, c18::DEF, c01::DEF, c02::DEF, c03::DEF, c04::DEF, c05::DEF, c07::DEF, c09::DEF]
 }
 
 pub fn find(id: &str) -> Option<PropDef> {
